@@ -1647,5 +1647,6 @@ pub fn gen_scenario(property: &str, p: &Profile, run_seed: u64, reencode_tail: b
         tail,
         exec: None,
         info: None,
+        walk: None,
     })
 }
